@@ -41,7 +41,7 @@ ASSUMPTIONS = [
     "bounds: respondent 5.1 + 10 + 3 + 3 s, supplicant 10 + 5.1 + 10 + 10 s (the stated waits plus the binding QoS send timeout), +1 s slack",
     "'all frames eventually delivered' for clause (1) = no phase lost to the peer and no delay of 2.5 s or more",
 ]
-REQUIRED = {"attempts": 40, "attempts.clean_expected": 10, "attempts.faulted": 20, "retries": 30, "both_succeeded": 10}
+REQUIRED = {"solo.attempts": 12, "solo.succeeded": 6, "attempts": 40, "attempts.clean_expected": 10, "attempts.faulted": 20, "retries": 30, "both_succeeded": 10}
 
 FLOWS: list[dict[str, Any]] = [
     {
@@ -356,15 +356,125 @@ async def episode(loop: vloop.VirtualLoop, ctx, trial: int) -> None:
     air.close()
 
 
+ORCON_REM = {
+    "name": "REM->FAN(orcon, offer to 63:262142)",
+    "resp": {"32:155617": {"class": "FAN", "scheme": "orcon"}},
+    "supp": {"29:158183": {"class": "REM", "scheme": "orcon"}},
+    "flow": (
+        " I --- 29:158183 63:262142 --:------ 1FC9 024 0022F17669E70022F37669E76710E07669E7001FC97669E7",
+        " W --- 32:155617 29:158183 --:------ 1FC9 012 0031D9825FE10031DA825FE1",
+        " I --- 29:158183 32:155617 --:------ 1FC9 001 00",
+        " I --- 29:158183 63:262142 --:------ 10E0 038 000001C827090167FFFFFFFFFFFF0D0207E3564D4E2D31354C46303100000000000000000000",
+    ),
+}
+
+
+async def solo_episode(loop: vloop.VirtualLoop, ctx, trial: int) -> None:
+    """One library end against a *real-device-like* peer scripted by the harness.
+
+    Real RF devices send each handshake frame three times, 0.1 s or so apart; the peer's frames are the
+    recorded ones (incl. the Orcon remote that addresses its offer to 63:262142).
+    """
+    from ramses_rf import exceptions as rexc
+    from ramses_tx import Command
+
+    rng = random.Random(f"C20solo/{ctx.seed}/{trial}")
+    flows = FLOWS + [ORCON_REM]
+    flow = flows[trial % len(flows)]
+    role = "respondent" if flow is ORCON_REM or trial % 2 else "supplicant"
+    f = flow["flow"]
+    repeats, gap = rng.choice((1, 2, 3, 3)), rng.choice((0.0, 0.05, 0.1, 0.3))
+    meta = {"seed": ctx.seed, "trial": trial, "solo": role, "flow": flow["name"], "peer_repeats": repeats, "gap_s": gap}
+    air = airmod.Air(loop)
+    cfg = {"disable_discovery": True, "disable_qos": False, "enforce_known_list": True}
+    known = {k: dict(v) for k, v in {**flow["resp"], **flow["supp"]}.items()}
+    mine = flow["resp"] if role == "respondent" else flow["supp"]
+    if role == "supplicant":
+        known[list(mine)[0]]["faked"] = True
+    gwy = await harness.start_port_gateway(loop, air, "18:111111", config=dict(cfg), known_list=known, orphans_hvac=list(mine))
+    await asyncio.sleep(0.3)
+    dev = gwy.device_by_id.get(list(mine)[0]) or gwy.get_device(list(mine)[0])
+    ensure_fakeable(dev)
+
+    def cast(frame: str, at: float) -> None:
+        for i in range(repeats):
+            air.inject(frame, delay=at + i * gap, faultable=False)
+
+    heard: set[str] = set()
+
+    def peer(frame: str) -> None:  # what the scripted device does when it hears the library's frames
+        ph = phase_of(frame)
+        if role == "respondent" and ph == "accept" and frame[7:16] == list(mine)[0] and "accept" not in heard:
+            heard.add("accept")
+            cast(f[2], 0.05)
+            if len(f) > 3:
+                cast(f[3], 0.05 + repeats * gap + 0.05)
+        if role == "supplicant" and ph == "offer" and frame[7:16] == list(mine)[0] and "offer" not in heard:
+            heard.add("offer")
+            cast(f[1], 0.05)
+
+    air.add_listener(peer)
+    payload = f[1][46:]
+    accept_codes = [payload[i : i + 4] for i in range(2, len(payload), 12)]
+    t0 = loop.time()
+    out: dict[str, Any] = {}
+    try:
+        if role == "respondent":
+            coro = dev._wait_for_binding_request(accept_codes, idx=payload[:2], require_ratify=len(f) > 3)
+            task = asyncio.ensure_future(coro)
+            await asyncio.sleep(rng.choice((0.1, 1.0)))
+            cast(f[0], 0.0)
+        else:
+            p0 = f[0][46:]
+            offer_codes = [c for c in (p0[i : i + 4] for i in range(2, len(p0), 12)) if c != "1FC9"]
+            coro = dev._initiate_binding_process(offer_codes, confirm_code=f[2][48:52] or None, ratify_cmd=Command(f[3]) if len(f) > 3 else None)
+            task = asyncio.ensure_future(coro)
+        res = await asyncio.wait_for(task, timeout=60)
+        out = {"outcome": "tuple", "pkts": [str(p) if p is not None else None for p in res]}
+    except rexc.BindingError as err:
+        out = {"outcome": "binding-error", "error": type(err).__name__}
+    except Exception as err:  # noqa: BLE001
+        out = {"outcome": "other-exception", "error": type(err).__name__, "where": innermost_lib_frame(err), "text": str(err)[:120]}
+    out["took"] = loop.time() - t0
+    await asyncio.sleep(6.0)
+    ctx.count("solo.attempts")
+    n = len(f)
+    if out["outcome"] != "tuple":
+        ctx.violate(
+            f"C20|solo|{role}|failed-against-a-conforming-peer|{out['outcome']}|{out.get('error')}",
+            "against a peer that sends every handshake frame (each repeated like a real RF device) the library's end did not report success",
+            {"observed": out, "episode": meta},
+        )
+    elif out["pkts"][:n] != list(f):
+        ctx.violate(
+            f"C20|solo|{role}|succeeded-with-wrong-packets",
+            "the library's end reports success but its offer / accept / confirm (/ addenda) packets are not the ones exchanged",
+            {"returned": out["pkts"], "exchanged": list(f), "episode": meta},
+        )
+    else:
+        ctx.count("solo.succeeded")
+    if dev._bind_context.is_binding:
+        ctx.violate(f"C20|solo|{role}|still-binding-afterwards", "after the handshake the device was still binding", {"state": repr(dev._bind_context.state), "episode": meta})
+    for u in loop.unhandled:
+        if "binding_fsm" in (u.get("where") or "") or u.get("type") == "InvalidStateError":
+            ctx.violate(f"C20|unhandled|loop|{u['type']}|{u['where']}", "a binding callback raised inside the event loop (unhandled)", {"exception": u, "episode": meta})
+    ctx.ev()
+    ctx.seen(f"solo|{role}|{flow['name']}|x{repeats}|{out['outcome']}")
+    if trial < 1:
+        ctx.sample({"episode": meta, "observed": out})
+    await harness.stop_gateway(gwy)
+    air.close()
+
+
 def run(ctx) -> None:
     n = 60 if ctx.quick else 1200
-    for k in range(n):
-        trial = ctx.shard + k * ctx.nshards
+    jobs = [("pair", ctx.shard + k * ctx.nshards) for k in range(n)] + [("solo", ctx.shard + k * ctx.nshards) for k in range(n // 4)]
+    for kind, trial in jobs:
         harness.reset_transport_globals()
 
-        async def go(loop, trial=trial):
+        async def go(loop, kind=kind, trial=trial):
             with clocks_patched():
-                await episode(loop, ctx, trial)
+                await (episode if kind == "pair" else solo_episode)(loop, ctx, trial)
 
         try:
             vloop.run(go)
@@ -386,7 +496,7 @@ def replay(data: dict[str, Any]) -> int:
 
         async def go(loop, ep=ep, ctx=ctx):
             with clocks_patched():
-                await episode(loop, ctx, ep["trial"])
+                await (solo_episode if "solo" in ep else episode)(loop, ctx, ep["trial"])
 
         vloop.run(go)
         for k, v in ctx.violations.items():
